@@ -2,6 +2,7 @@
 C17 — helper lemmas.
 -/
 import Sc3Verif.C17.Spec
+import Sc3Verif.C16.Lemmas
 namespace Sc3Verif.C17
 
 /-! ### histories -/
@@ -736,5 +737,72 @@ theorem releaseGate_num {t : Val} {g : Arg} (h : releaseGate t = some g) : g.isV
   | flt r => simp only [releaseGate, Option.some.injEq] at h; subst h; split <;> rfl
   | _ => simp [releaseGate] at h
 
+
+/-! ### the buffer allocator under `free_all` -/
+
+section FreeAll
+open Sc3Verif.C16 (CBA Block Inv Tiles tiles_mem tiles_start_inj free_inv blocks_eq SameFrame)
+
+theorem tiles_pairwise : ∀ (l : List Block) (lo hi : Nat), Tiles l lo hi →
+    l.Pairwise (fun b d => b.start + b.size ≤ d.start)
+  | [], _, _, _ => List.Pairwise.nil
+  | b :: l, lo, hi, ht => by
+    obtain ⟨h1, h2, h3⟩ := ht
+    refine List.Pairwise.cons ?_ (tiles_pairwise l _ _ h3)
+    intro d hd
+    have := tiles_mem h3 hd; omega
+
+/-- freeing a list of distinct used blocks one after the other (the loop of
+    `_free_all_buffers`) removes exactly them and keeps the allocator invariant -/
+theorem freeBlocks_inv : ∀ (L : List Block) (a : CBA) (bs : List Block), Inv a bs →
+    (∀ b ∈ L, b ∈ bs ∧ b.used = true) → L.Pairwise (fun x y => x.start ≠ y.start) →
+    ∃ bs', Inv (freeBlocks a L) bs' ∧ SameFrame (freeBlocks a L) a ∧
+      ∀ u, u.used = true → (u ∈ bs' ↔ u ∈ bs ∧ ∀ b ∈ L, u.start ≠ b.start)
+  | [], a, bs, hi, _, _ => ⟨bs, hi, SameFrame.refl a, fun u _ => by simp⟩
+  | b :: L, a, bs, hi, hL, hp => by
+    have hb := hL b (by simp)
+    have hm := tiles_mem hi.tiles hb.1
+    obtain ⟨a1, bs1, e1, hi1, hf1, hu1⟩ := free_inv hi (x := b.start) (by omega)
+    simp only [freeBlocks, e1]
+    have hp' := List.pairwise_cons.mp hp
+    have hL1 : ∀ d ∈ L, d ∈ bs1 ∧ d.used = true := fun d hd => by
+      have := hL d (by simp [hd])
+      exact ⟨(hu1 d this.2).mpr ⟨this.1, fun e => hp'.1 d hd e.symm⟩, this.2⟩
+    obtain ⟨bs', hi', hf', hu'⟩ := freeBlocks_inv L a1 bs1 hi1 hL1 hp'.2
+    refine ⟨bs', hi', hf'.trans hf1, ?_⟩
+    intro u hu
+    rw [hu' u hu, hu1 u hu]
+    simp only [List.mem_cons, forall_eq_or_imp]
+    constructor
+    · rintro ⟨⟨h1, h2⟩, h3⟩; exact ⟨h1, h2, h3⟩
+    · rintro ⟨h1, h2, h3⟩; exact ⟨⟨h1, h2⟩, h3⟩
+
+/-- after the loop over `blocks()` no used block is left -/
+theorem freeBlocks_all {a : CBA} {bs : List Block} (hi : Inv a bs) :
+    (freeBlocks a a.blocks).blocks = [] ∧ (∃ bs', Inv (freeBlocks a a.blocks) bs') ∧
+    SameFrame (freeBlocks a a.blocks) a := by
+  have hb := blocks_eq hi.toWInv
+  have hp : a.blocks.Pairwise (fun x y => x.start ≠ y.start) := by
+    rw [hb]
+    apply List.Pairwise.filter
+    refine (tiles_pairwise bs _ _ hi.tiles).imp_of_mem ?_
+    intro x y hx _ h e
+    have := tiles_mem hi.tiles hx
+    omega
+  have hL : ∀ b ∈ a.blocks, b ∈ bs ∧ b.used = true := by
+    intro b hbm
+    rw [hb] at hbm
+    simpa using List.mem_filter.mp hbm
+  obtain ⟨bs', hi', hf', hu'⟩ := freeBlocks_inv a.blocks a bs hi hL hp
+  refine ⟨?_, ⟨bs', hi'⟩, hf'⟩
+  rw [blocks_eq hi'.toWInv]
+  apply List.filter_eq_nil_iff.mpr
+  intro u hu huu
+  have := (hu' u (by simpa using huu)).mp hu
+  have hmem : u ∈ a.blocks := by rw [hb]; exact List.mem_filter.mpr ⟨this.1, huu⟩
+  exact this.2 u hmem rfl
+
+
+end FreeAll
 
 end Sc3Verif.C17
